@@ -331,7 +331,8 @@ def streamIo (sc : Script) (s : S) : S :=
   else
     let s := writeLoop 32 s
     let s := writeCallbacks sc s
-    if s.wq.isEmpty then drain sc s else s
+    -- 1234-1241: drain only when no callback is owed either
+    if s.wq.isEmpty ∧ s.cq.isEmpty then drain sc s else s
 
 /-! ### uv__stream_destroy (455-470) + close_cb -/
 
